@@ -333,9 +333,177 @@ def long_waits(case):
                       'activations': sess.n}}
 
 
+def wide_and_deep(case):
+    """programs that are small in text but deep (blocks nested 30-150 levels, connectives nested
+    as deep) or wide (hundreds of children failing at once, hundreds of waiters / contenders):
+    the kernel has no business failing on size (RecursionError, quadratic blow-up, lost wake-up)"""
+    import usim
+    from usim import time, until, Flag, Lock, Scope, Concurrent
+    rng = random.Random('%s/%s/c03-size' % (case['seed'], case['index']))
+    depth = rng.choice([30, 60, 150])
+    width = rng.choice([100, 300, 700])
+    kind = rng.choice(['nested-until', 'nested-scopes-failure', 'nested-scopes-cancel',
+                       'deep-connective', 'wide-failure', 'wide-flag', 'wide-lock'])
+    log = []
+    expect_log = None
+    expect_failure = None
+
+    class Deep(KeyError):
+        pass
+
+    async def idle():
+        await (time + 1000)
+
+    if kind == 'nested-until':
+        # all deadlines at 3 (they strike at once), or the inner ones later than the outer
+        same = rng.random() < 0.5
+
+        async def level(n):
+            if n == 0:
+                await (time + 50)
+                log.append('innermost completed')
+            else:
+                async with until(time >= (3 if same else 3 + n * 0.001)):
+                    await level(n - 1)
+                if n == depth:
+                    log.append(('outermost left', time.now))
+
+        async def main():
+            await level(depth)
+        # (the innermost block has the earliest deadline; once it is struck all bodies are done)
+        expect_log = [('outermost left', 3 if same else 3.001)]
+    elif kind in ('nested-scopes-failure', 'nested-scopes-cancel'):
+        async def level(n):
+            async with Scope() as scope:
+                scope.do(idle(), volatile=rng.random() < 0.5)
+                if n == 0:
+                    await (time + 2)
+                    if kind == 'nested-scopes-failure':
+                        raise Deep('innermost')
+                    await (time + 50)
+                else:
+                    await level(n - 1)
+
+        if kind == 'nested-scopes-failure':
+            async def main():
+                await level(depth)
+            expect_failure = Deep
+        else:
+            async def main():
+                async with Scope() as scope:
+                    task = scope.do(level(depth))
+                    await (time + 4)
+                    task.cancel()
+                    await task.done
+                    log.append(('cancelled', time.now, task.status.name))
+            expect_log = [('cancelled', 4, 'CANCELLED')]
+    elif kind == 'deep-connective':
+        flags = [Flag() for _ in range(depth)]
+        cond = flags[-1]
+        for number in range(depth - 2, -1, -1):
+            cond = (flags[number] & cond) if number % 2 else (flags[number] | cond)
+
+        def truth(values, number=0):
+            if number == depth - 1:
+                return values[number]
+            rest = truth(values, number + 1)
+            return (values[number] and rest) if number % 2 else (values[number] or rest)
+        values = [False] * depth
+        order = list(range(1, depth))     # flag 0 is or-ed on top: leave it alone
+        rng.shuffle(order)
+        holds_at = None
+        for step, number in enumerate(order):
+            values[number] = True
+            if truth(values):
+                holds_at = step + 1
+                break
+
+        async def driver():
+            for number in order:
+                await (time + 1)
+                await flags[number].set()
+
+        async def main():
+            async with Scope() as scope:
+                scope.do(driver())
+                await cond
+                log.append(('holds', time.now))
+        expect_log = [('holds', holds_at)]
+    elif kind == 'wide-failure':
+        async def fails(number):
+            await (time + 1)
+            raise Deep(number)
+
+        async def main():
+            try:
+                async with Scope() as scope:
+                    for number in range(width):
+                        scope.do(fails(number))
+            except Concurrent as err:
+                log.append(('concurrent', time.now, all(
+                    isinstance(child, Deep) for child in err.children), len(err.children) >= 1))
+        expect_log = [('concurrent', 1, True, True)]
+    elif kind == 'wide-flag':
+        flag = Flag()
+
+        async def waits(number):
+            await flag
+            log.append(number)
+
+        async def main():
+            async with Scope() as scope:
+                for number in range(width):
+                    scope.do(waits(number))
+                await (time + 1)
+                await flag.set()
+        expect_log = list(range(width))
+    else:
+        lock = Lock()
+
+        async def contends(number):
+            async with lock:
+                log.append(number)
+                if number % 50 == 0:
+                    await (time + 1)
+
+        async def main():
+            async with Scope() as scope:
+                for number in range(width):
+                    scope.do(contends(number))
+        expect_log = list(range(width))
+    sess = Session(budget_per_step=400000, budget_total=4000000)
+    root = main()
+    root.__name__ = root.__qualname__ = kind
+    outcome = sess.run(root)
+    violations = [dict(v, case=dict(case)) for v in sess.violations
+                  if v['mechanism'].startswith('kernel-')]
+    what = '%s (depth %d, width %d)' % (kind, depth, width)
+    if expect_failure is not None:
+        if outcome[0] != 'exc' or type(outcome[1]) is not expect_failure:
+            violations.append({'mechanism': 'internal-error:%s' % type(outcome[1]).__name__,
+                               'msg': '%s: run() ended with %r, expected the failure raised by '
+                                      'the program' % (what, outcome[1]), 'case': dict(case)})
+    elif outcome[0] != 'ok':
+        violations.append({'mechanism': 'internal-error:%s' % type(outcome[1]).__name__,
+                           'msg': '%s: run() ended with %r' % (what, outcome[1]),
+                           'case': dict(case)})
+    elif log != expect_log:
+        violations.append({'mechanism': 'large-program-wrong-outcome',
+                           'msg': '%s: logged %s, expected %s' % (
+                               what, str(log)[:300], str(expect_log)[:300]), 'case': dict(case)})
+    try:
+        root.close()
+    except BaseException:  # noqa: B902
+        pass
+    return {'evals': 1, 'sigs': [], 'violations': violations,
+            'stats': {'wide_or_deep_programs': 1, 'activations': sess.n}}
+
+
 def run_case(case):
     if case.get('gen') == 'threads':
         return run_threads(case)
+    if case.get('plan') is None and case['index'] % 40 == 27:
+        return wide_and_deep(case)
     if case.get('plan') is None and case['index'] % 40 == 7:
         return long_waits(case)
     if case.get('canary') == 'd15':
